@@ -133,6 +133,47 @@ def check_trace(db, rep):
             rep.fail('A.trace.form', 'operator*/%d' % d, unit.loc(f), 'Tr(AB)', str(r), f['name'])
 
 
+def check_expression_product(db, rep):
+    """the scalar product of two unevaluated expressions is the trace of the product of their values - also when they are
+    of one kind and over one and the same vector object and differ only in a parameter (the scalar of a multiplication)"""
+    unit = db.unit('instantiate')
+    prefix = 'squids::detail::EvaluationProxy<squids::detail::MultiplicationProxy>::operator*<squids::detail::MultiplicationProxy'
+    fs = [g for g in unit.functions if g['name'].startswith(prefix) and g.get('body') is not None and len(g['params']) == 1]
+    fs = list({g['id']: g for g in fs}.values())
+    if len(fs) != 1:
+        raise AnalysisBroken('the product of two scaled vectors is not instantiated in the driver unit (%d definitions)' % len(fs))
+    f = fs[0]
+    rep.fn(f['name'])
+    n = 0
+    for d in (2, 3):
+        for same_object in (True, False):
+            n += 1
+            _, _, otr = oracle_tables(db, d)
+            a, _ = make_suv('A', d, 'a')
+            b = a if same_object else make_suv('B', d, 'b')[0]
+            hooks = proxies.ProxyHooks()
+            p1, _ = proxies.build_proxy(db, 'Multiplication', a, None, hooks, scalar=Poly.var('s1'))
+            p2, _ = proxies.build_proxy(db, 'Multiplication', b, None, hooks, scalar=Poly.var('s2'))
+            it = Interp(unit, hooks)
+            site = 'expression*expression/%d/%s' % (d, 'one vector, scalars s1 and s2' if same_object else 'two vectors')
+            try:
+                r = it.call(f, Cell(p1, None, 0, 'e1'), [Cell(p2, None, 0, 'e2')])
+            except Thrown as t:
+                rep.fail('A.trace.form', site, unit.loc(t.node), 'trace value', 'throw: %s' % t.what, f['name'])
+                continue
+            m = {}
+            for k in range(d * d):
+                m[('v', 'a%d' % k)] = Poly.var('s1') * Poly.var('a%d' % k)
+                m[('v', 'b%d' % k)] = Poly.var('s2') * Poly.var(('a%d' if same_object else 'b%d') % k)
+            want = otr.re.subst(m)
+            if isinstance(r, (Poly, ITE)) and same(r, want):
+                rep.ok('A.trace.form')
+            else:
+                rep.fail('A.trace.form', site, unit.loc(f), '(s1 A)*(s2 B) = s1 s2 Tr(AB)', explain(r, want) if isinstance(r, ITE) else '; '.join(r.diff_terms(want, limit=3)) if isinstance(r, Poly) else repr(r),
+                         f['name'])
+    rep.floor('A.trace.expr', n, 4)
+
+
 def check_derived(db, rep):
     """thorough tier: consequences recomputed from the extracted tables (redundant with the table rules)"""
     for d in DIMS:
@@ -163,5 +204,6 @@ def run(db, rep, tier):
     rep.declined += ['the rounding bound proportional to |A||B|']
     check_tables(db, rep, tier)
     check_trace(db, rep)
+    check_expression_product(db, rep)
     if tier == 'thorough':
         check_derived(db, rep)
